@@ -55,6 +55,12 @@ def Err.toString : Err → String
   | .nilDeref => "panic"
   | .insufficientFunds => "insufficient-funds"
 
+instance instDecEqExcept {ε α : Type} [DecidableEq ε] [DecidableEq α] : DecidableEq (Except ε α)
+  | .ok a, .ok b => if h : a = b then isTrue (by rw [h]) else isFalse (by intro e; cases e; exact h rfl)
+  | .error a, .error b => if h : a = b then isTrue (by rw [h]) else isFalse (by intro e; cases e; exact h rfl)
+  | .ok _, .error _ => isFalse (by intro e; cases e)
+  | .error _, .ok _ => isFalse (by intro e; cases e)
+
 /-- Posting side keys. -/
 def Posting.srcKey (p : Posting) : Key := (p.source, p.asset)
 def Posting.dstKey (p : Posting) : Key := (p.destination, p.asset)
